@@ -241,7 +241,8 @@ def equality_predicates(world: World, salt: int = 0):
         copy = root.copy_tree_structure()
         if not (root == copy) or (root != copy):
             return 'the program does not compare equal to its own copy_tree_structure()'
-        for empty in (None, []):
+        # both spellings of 'no measurements' within any two consecutive steps (one fresh construction per step)
+        for empty in ((None,) if salt % 2 else ([],)):
             twin = rebuild(root, empty)
             if not ((twin == root) if empty is None else (root == twin)):
                 return ('the program does not compare equal to a freshly constructed program with the same structure, '
